@@ -377,6 +377,169 @@ impl Scenario for DirtySlice {
     }
 }
 
+
+/// S-dirty/race: one writer performing tracked writes through every accessor while a harvester
+/// (the VMM's migration thread) fetches-and-clears the bitmap at scheduler-chosen instants and
+/// copies the pages it was told about. The scheduler may switch before every primitive guest
+/// access, before every bitmap word operation and while a read(2) is blocked. Oracle = migration
+/// convergence: after the writer is done and one last harvest was copied, the copy equals guest
+/// memory; a byte that changed after its page was last reported must still be reported.
+pub struct DirtyRace;
+pub static DIRTY_RACE: DirtyRace = DirtyRace;
+
+impl Scenario for DirtyRace {
+    fn name(&self) -> &'static str {
+        "S-dirty/race"
+    }
+    fn run(&self) -> RunInfo {
+        cx().cfg.anon_atomics = true;
+        match cx().a(3) {
+            0 => run_race::<RefSlice<'static, AtomicBitmap>>(|rid| new_tracked(rid, "RefSlice", |bm, off| RefSlice::new(bm, off))),
+            1 => run_race::<ArcSlice<AtomicBitmap>>(new_tracked_arc),
+            _ => run_race::<Option<RefSlice<'static, AtomicBitmap>>>(|rid| new_tracked(rid, "Option<RefSlice>", |bm, off| Some(RefSlice::new(bm, off)))),
+        }
+    }
+}
+
+fn run_race<BS: BitmapSlice>(mk: impl Fn(u32) -> Cont<BS>) -> RunInfo {
+    use crate::sim::{run_concurrent, Policy};
+    use std::cell::RefCell;
+    cx().mode = Mode::Setup;
+    let mut conts = vec![mk(0)];
+    let (ptr, size) = (conts[0].ptr, conts[0].size);
+    let (bitmap, base_off, ps, flavour) = {
+        let t = conts[0].track.as_ref().unwrap();
+        (t.bitmap.clone(), t.base_off, t.ps, t.flavour)
+    };
+    in_mode(Mode::Setup, || bitmap.reset());
+    // the migration target starts as a full copy
+    let dest = RefCell::new(raw_read(ptr, size));
+    let harvests = RefCell::new(Vec::<String>::new());
+    let nops = 1 + cx().a(3) as usize;
+    let nharv = 1 + cx().a(3) as usize;
+    // writer program, drawn up front so that the interleaving does not decide it
+    let mut prog = Vec::new();
+    for _ in 0..nops {
+        let spec = gen_view(size);
+        let mut kind = cx().a(25);
+        if kind == 20 {
+            kind = 0; // writes through handed-out references are exempt from tracking
+        }
+        let fd_read = cx().a(4) == 0;
+        prog.push((spec, kind, fd_read, cx().a(2) == 0));
+    }
+    {
+        let c = cx();
+        c.cfg.yield_atomic = true;
+        c.cfg.yield_access = true;
+        c.cfg.yield_sys = true;
+        c.sched.policy = match c.a(5) {
+            0 => Policy::Uniform,
+            1 => Policy::Sticky(4, 5),
+            2 => Policy::Sticky(19, 20),
+            3 => Policy::Pct(1),
+            _ => Policy::Pct(2),
+        };
+    }
+    let log = RefCell::new(Vec::<String>::new());
+    let (mut ok_ops, mut rejected) = (0u32, 0u32);
+    let copy_pages = |words: &[u64], dest: &mut Vec<u8>| -> usize {
+        let now = raw_read(ptr, size);
+        let mut n = 0;
+        for i in 0..size {
+            let p = (base_off + i) / ps;
+            if words.get(p / 64).map(|w| w >> (p % 64) & 1 == 1).unwrap_or(false) {
+                dest[i] = now[i];
+                n += 1;
+            }
+        }
+        n
+    };
+    {
+        let conts_ref = &mut conts;
+        let (log2, dest2, harv2, bm2) = (&log, &dest, &harvests, &bitmap);
+        let (ok2, rej2) = (&mut ok_ops, &mut rejected);
+        let prog2 = &prog;
+        let wbody: Box<dyn FnOnce() + '_> = Box::new(move || {
+            for (step, (spec, kind, fd_read, exact)) in prog2.iter().enumerate() {
+                cx().op_begin(step as u64);
+                if *fd_read {
+                    // a descriptor read into the tracked view; the scheduler may run the harvester
+                    // while the read is blocked in the kernel
+                    let base_slice = conts_ref[0].slice();
+                    if let Ok(view) = derive_from_container(&conts_ref[0], base_slice, spec) {
+                        let n = 1 + (spec.len.max(1) * 7 / 8);
+                        let data: Vec<u8> = (0..n + 8).map(|i| pat(step as u32 + 90, i)).collect();
+                        let mut f = in_mode(Mode::Setup, || {
+                            let f = crate::gmworld::memfd(0);
+                            use std::os::fd::AsRawFd;
+                            // SAFETY: our own descriptor and buffer.
+                            unsafe {
+                                libc::write(f.as_raw_fd(), data.as_ptr() as *const libc::c_void, data.len());
+                                libc::lseek(f.as_raw_fd(), 0, libc::SEEK_SET);
+                            }
+                            f
+                        });
+                        let r = with_allowed(conts_ref[0].rid, &[(cont_base_in_range(&conts_ref[0]) + spec.off, cont_base_in_range(&conts_ref[0]) + spec.off + spec.len)], || if *exact { flat(catch(|| view.read_exact_volatile_from(0, &mut f, n.min(spec.len))), obs_unit) } else { flat(catch(|| view.read_volatile_from(0, &mut f, n)), obs_count) });
+                        log2.borrow_mut().push(format!("writer: view{:?}(+{},{}) {}(File, {}) -> {:?}", spec.steps, spec.off, spec.len, if *exact { "read_exact_volatile_from" } else { "read_volatile_from" }, n, r));
+                        *ok2 += 1;
+                    }
+                } else {
+                    let (desc, _) = MEM.one_op(conts_ref, 0, spec, *kind, step as u32 + 1, step, ok2, rej2);
+                    log2.borrow_mut().push(format!("writer: view{:?}(+{},{}) {}", spec.steps, spec.off, spec.len, desc));
+                }
+                cx().op_end(step as u64, 0);
+            }
+        });
+        let hbody: Box<dyn FnOnce() + '_> = Box::new(move || {
+            for h in 0..nharv {
+                crate::sim::yield_point();
+                cx().op_begin(100 + h as u64);
+                let words = match catch(|| bm2.get_and_reset()) {
+                    OpOutcome::Ok(w) => w,
+                    _ => Vec::new(),
+                };
+                // the pages reported are copied at once (the earliest a VMM could do it)
+                let n = in_mode(Mode::Oracle, || copy_pages(&words, &mut dest2.borrow_mut()));
+                cx().op_end(100 + h as u64, 0);
+                harv2.borrow_mut().push(format!("harvest {}: {} byte(s) copied", h, n));
+                log2.borrow_mut().push(format!("harvester: get_and_reset() reported {} dirty byte(s) of the container", n));
+            }
+        });
+        run_concurrent(vec![wbody, hbody]);
+    }
+    let c = cx();
+    c.count_n("sim.steps", c.sched.steps);
+    let inop = c.sched.inop_switches;
+    if c.sched.over_budget {
+        c.harness_error = Some("step budget exceeded in S-dirty/race".into());
+    }
+    cx().mode = Mode::Setup;
+    cx().cfg.yield_atomic = false;
+    cx().cfg.yield_access = false;
+    cx().cfg.yield_sys = false;
+    // the last round of the migration: everything still marked is copied
+    let words = in_mode(Mode::Oracle, || bitmap.get_and_reset());
+    copy_pages(&words, &mut dest.borrow_mut());
+    let now = raw_read(ptr, size);
+    let d = dest.borrow();
+    if let Some(i) = (0..size).find(|&i| now[i] != d[i]) {
+        let line = log.borrow().join(" | ");
+        let kn = log.borrow().iter().find(|l| l.starts_with("writer")).map(|l| l.split_whitespace().nth(2).unwrap_or("").split('(').next().unwrap_or("").to_string()).unwrap_or_default();
+        cx().violate("C05", "C05/stale-after-harvest", format!("{} racing with a harvest through {}", kn, flavour), format!("{}: byte {} of the container (page {}, page size {}, slice base offset {}) is {:#04x} but the copy assembled from the harvests holds {:#04x}: it changed after its page was last reported and is not reported dirty", line, i, (base_off + i) / ps, ps, base_off, now[i], d[i]));
+    }
+    drop(d);
+    let desc = if cx().trace { Some(J::obj().set("container", J::s(format!("size={} bitmap={} page_size={} base_offset={}", size, flavour, ps, base_off))).set("history", J::strs(log.borrow().clone()))) } else { None };
+    for c in conts {
+        cx().remove_range(c.rid);
+        if let Some(a) = c.arena {
+            a.release();
+        }
+    }
+    cx().mode = Mode::Oracle;
+    RunInfo { nontrivial: inop > 0 && ok_ops > 0, desc, cell: None }
+}
+
 fn tracked_geometry(size: usize) -> (usize, usize, usize) {
     let c = cx();
     let ps = c.pick(&[1usize, 2, 3, 16, 64, 4096, 7]);
